@@ -134,11 +134,46 @@ func (e *Exec) loadStruct(st *State, ref Term, t types.Type) Term {
 	return app(srt, si.ctor, args...)
 }
 
-func (e *Exec) storeStruct(st *State, ref Term, t types.Type, val Term) {
+// storeStructRaw stores a struct value that already lives somewhere (copy-in of an addressable value): its
+// memo cells are assumed, not checked.
+func (e *Exec) storeStructRaw(st *State, ref Term, t types.Type, val Term) {
 	su := structOf(t)
 	for i := 0; i < su.NumFields(); i++ {
 		k := e.fieldKey(t, su.Field(i))
 		e.heapSet(st, k, Store(e.heapGet(st, k), ref, e.S.Field(val, su.Field(i).Name())))
+	}
+	for i := 0; i < su.NumFields(); i++ {
+		if pred := e.P.Memo[e.fieldKey(t, su.Field(i))]; pred != nil && e.memoBusy == 0 {
+			e.Ctx.Assume(st.PC, e.memoPred(st, pred, ref))
+		}
+	}
+}
+
+// keepMemo returns val with its memo fields replaced by those of orig.
+func (e *Exec) keepMemo(t types.Type, val, orig Term) Term {
+	su := structOf(t)
+	for i := 0; i < su.NumFields(); i++ {
+		if e.P.Memo[e.fieldKey(t, su.Field(i))] != nil {
+			val = e.S.WithField(val, su.Field(i).Name(), e.S.Field(orig, su.Field(i).Name()))
+		}
+	}
+	return val
+}
+
+func (e *Exec) storeStruct(st *State, ref Term, t types.Type, val Term) {
+	su := structOf(t)
+	var memos []string
+	for i := 0; i < su.NumFields(); i++ {
+		k := e.fieldKey(t, su.Field(i))
+		e.heapSet(st, k, Store(e.heapGet(st, k), ref, e.S.Field(val, su.Field(i).Name())))
+		if e.P.Memo[k] != nil {
+			memos = append(memos, k)
+		}
+	}
+	if e.spec == 0 && e.memoBusy == 0 {
+		for _, k := range memos {
+			e.memoWritten(st, k, e.P.Memo[k], ref)
+		}
 	}
 }
 
@@ -183,6 +218,14 @@ func (e *Exec) merge2(a, b *State) *State {
 			} else {
 				n.Vars[k] = e.Ctx.Define("m_"+k.Name(), Ite(cond, va, vb))
 			}
+		} else if e.keepVar[k] {
+			// declared on one path only (a later scope): unknown on the other path
+			n.Vars[k] = e.Ctx.Define("m_"+k.Name(), Ite(cond, va, e.Ctx.Fresh("undef_"+k.Name(), va.Sort)))
+		}
+	}
+	for k, vb := range b.Vars {
+		if _, ok := a.Vars[k]; !ok && e.keepVar[k] {
+			n.Vars[k] = e.Ctx.Define("m_"+k.Name(), Ite(cond, e.Ctx.Fresh("undef_"+k.Name(), vb.Sort), vb))
 		}
 	}
 	keys := map[string]bool{}
@@ -232,9 +275,18 @@ func (e *Exec) withPC(st *State, c Term) *State {
 	return n
 }
 
-// assume adds c to the path condition of st (in place).
+// assume records that c holds on every execution reaching st. The fact is kept out of the path condition
+// (which holds branch decisions only) so that quantified contract clauses occur with positive polarity only.
 func (e *Exec) assume(st *State, c Term) {
-	st.PC = e.definePC(And(st.PC, c))
+	if c.S == "false" {
+		st.PC = False
+		return
+	}
+	if strings.Contains(c.S, "!q") && !boundClosed(Implies(st.PC, c).S) {
+		st.PC = e.definePC(And(st.PC, c))
+		return
+	}
+	e.Ctx.Assume(st.PC, c)
 }
 
 // intRange returns the bounds of an integer type.
